@@ -142,7 +142,9 @@ func (w *c10World) prepare(c *core.Ctx, id string) {
 	if w.discard != "" {
 		return
 	}
-	w.oldc = run("old", func(cfg *world.Y) { cfg.Set("structname", "Old{{.InterfaceName}}") })
+	// previous generation with longer names: the old file is longer than the new one, so an
+	// overwrite that does not truncate leaves a tail behind
+	w.oldc = run("old", func(cfg *world.Y) { cfg.Set("structname", "PreviousGenerationWithAVeryLongName{{.InterfaceName}}") })
 }
 
 var c10Faults = []string{"none", "none", "none", "retrieval-file", "retrieval-http", "schema-interface", "schema-package", "exec-boilerplate", "format-pkgname", "format-template", "format-unknown-formatter"}
